@@ -9,13 +9,13 @@ from vlib import graphs as g, ctxrun, vsched
 ID = "C11"
 LEVEL = "exploration"
 RULE = (
-    "graph src -> mo(mo_a, mo_b) -> {nn(mo_a), fl(mo_b)} (a two-kind multi-output plugin in the middle) x 24 per-output "
+    "graph src -> mo(mo_a, mo_b) -> {nn(mo_a), lp(mo_a, mo_b)} (a two-kind multi-output plugin whose outputs are consumed separately and together) x 24 per-output "
     "save-policy assignments (each type in turn ALWAYS/TARGET/EXPLICIT/NEVER, uniform assignments, mixed ones) x every subset "
     "of the 5 data types pre-stored x every target x save= {none, all EXPLICIT types} x request modifier {none, time_range, "
     "selection, keep_columns, fuzzy_for, allow_incomplete} x forbid_creation_of {none, one needed type, '*'} x frontends {one "
     "read-write; read-only + read-write; two read-write with take_only / exclude}; oracle = an independent reference planner: "
     "plugins that ran (compute counters) == plugins on a path from the target to the nearest stored types; every running plugin "
-    "saw each whole-run input row exactly once; directories created == policy(save_when, target, save, modifier) per accepting "
+    "saw each whole-run input row exactly once and from the right origin (rows carry the phase in which their data type was computed: stored copy vs computed now); directories created == policy(save_when, target, save, modifier) per accepting "
     "writable frontend; DataNotAvailable when creation is forbidden or an ALWAYS type is missing under a time range. "
     "non-trivial: at least one plugin must run and one type is stored; distinct by the full configuration."
 )
@@ -27,11 +27,14 @@ ASSUMPTIONS = [
 BOUNDS = {"quick": "24 policies x 32 stored subsets x 5 targets x 2 save args, one rotating (modifier, forbid, frontends, processor) combination each", "thorough": "full product (6 modifiers x 3 forbid x 3 frontends)"}
 RUN = "0"
 SW = strax.SaveWhen
-SPEC = [g.N("src", "source"), g.N("mo", "multi", ["src"]), g.N("nn", "map", ["mo_a"]), g.N("fl", "map", ["mo_b"])]
-TYPES = ["src", "mo_a", "mo_b", "nn", "fl"]
-PROVIDER = {"src": "src", "mo_a": "mo", "mo_b": "mo", "nn": "nn", "fl": "fl"}
-PROVIDES = {"src": ["src"], "mo": ["mo_a", "mo_b"], "nn": ["nn"], "fl": ["fl"]}
-DEPS = {"src": [], "mo": ["src"], "nn": ["mo_a"], "fl": ["mo_b"]}
+# lp consumes BOTH outputs of the multi-output plugin (two kinds): one may be loaded while the other is computed
+SPEC = [g.N("src", "source"), g.N("mo", "multi", ["src"]), g.N("nn", "map", ["mo_a"]), g.N("lp", "loop", ["mo_a", "mo_b"])]
+TYPES = ["src", "mo_a", "mo_b", "nn", "lp"]
+PROVIDER = {"src": "src", "mo_a": "mo", "mo_b": "mo", "nn": "nn", "lp": "lp"}
+PROVIDES = {"src": ["src"], "mo": ["mo_a", "mo_b"], "nn": ["nn"], "lp": ["lp"]}
+DEPS = {"src": [], "mo": ["src"], "nn": ["mo_a"], "lp": ["mo_a", "mo_b"]}
+KIND_OF = {"src": "k_src", "mo_a": "k_src", "mo_b": "k_mo_b", "nn": "k_src", "lp": "k_src"}
+TAG = 1000  # rid = source row + TAG * phase in which the data type was computed (1: pre-stored, 2: request under test)
 IV = ((0, 1), (1, 2), (3, 4), (4, 5))
 BNDS = (0, 2, 6)
 MODIFIERS = ("none", "time_range", "selection", "keep_columns", "fuzzy_for", "allow_incomplete")
@@ -52,11 +55,11 @@ def policies():
             P.append(d)
     for p in (SW.TARGET, SW.EXPLICIT, SW.NEVER):
         P.append({t: p for t in TYPES})
-    P.append(dict(src=SW.NEVER, mo_a=SW.EXPLICIT, mo_b=SW.ALWAYS, nn=SW.TARGET, fl=SW.EXPLICIT))
-    P.append(dict(src=SW.EXPLICIT, mo_a=SW.NEVER, mo_b=SW.TARGET, nn=SW.ALWAYS, fl=SW.TARGET))
-    P.append(dict(src=SW.TARGET, mo_a=SW.TARGET, mo_b=SW.NEVER, nn=SW.EXPLICIT, fl=SW.ALWAYS))
-    P.append(dict(src=SW.ALWAYS, mo_a=SW.ALWAYS, mo_b=SW.EXPLICIT, nn=SW.NEVER, fl=SW.NEVER))
-    P.append(dict(src=SW.EXPLICIT, mo_a=SW.EXPLICIT, mo_b=SW.EXPLICIT, nn=SW.TARGET, fl=SW.ALWAYS))
+    P.append(dict(src=SW.NEVER, mo_a=SW.EXPLICIT, mo_b=SW.ALWAYS, nn=SW.TARGET, lp=SW.EXPLICIT))
+    P.append(dict(src=SW.EXPLICIT, mo_a=SW.NEVER, mo_b=SW.TARGET, nn=SW.ALWAYS, lp=SW.TARGET))
+    P.append(dict(src=SW.TARGET, mo_a=SW.TARGET, mo_b=SW.NEVER, nn=SW.EXPLICIT, lp=SW.ALWAYS))
+    P.append(dict(src=SW.ALWAYS, mo_a=SW.ALWAYS, mo_b=SW.EXPLICIT, nn=SW.NEVER, lp=SW.NEVER))
+    P.append(dict(src=SW.EXPLICIT, mo_a=SW.EXPLICIT, mo_b=SW.EXPLICIT, nn=SW.TARGET, lp=SW.ALWAYS))
     return P
 
 
@@ -67,6 +70,19 @@ def world_and_classes():
     if "c" not in _W:
         sources = {"src": dict(iv=IV, bounds=BNDS)}
         w = g.World(SPEC, sources)
+        w.tag = 1
+
+        def tagger(node, idx, plugin, r, start, end):
+            def t(a):
+                if isinstance(a, strax.Chunk):
+                    a.data["rid"] = a.data["rid"] % TAG + TAG * w.tag
+                else:
+                    a["rid"] = a["rid"] % TAG + TAG * w.tag
+                return a
+
+            return {k: t(v) for k, v in r.items()} if isinstance(r, dict) else t(r)
+
+        w.post = tagger
         attrs = {n["name"]: dict(rechunk_on_save=False) for n in SPEC}
         _W["c"] = (w, g.make_classes(SPEC, w, attrs), g.reference(SPEC, sources))
     return _W["c"]
@@ -160,6 +176,7 @@ def run_case(res, pi, stored, target, use_save, modifier, forbid_kind, layout, p
     base = ctxrun.fresh_dir("c11")
     # ---- pre-store the subset (everything EXPLICIT, one type at a time, into the storing frontend)
     set_policy(classes, {t: SW.EXPLICIT for t in TYPES})
+    world.tag = 1
     st0 = strax.Context(storage=frontends(layout, base, readonly_store=True), register=classes, **g.CTX_DEFAULTS)
     for t in TYPES:
         if t in stored:
@@ -168,6 +185,7 @@ def run_case(res, pi, stored, target, use_save, modifier, forbid_kind, layout, p
     eff_stored = frozenset(t for t in stored if st0.is_stored(RUN, t))
     # ---- request under test
     set_policy(classes, pol)
+    world.tag = 2
     save = tuple(t for t in TYPES if pol[t] == SW.EXPLICIT) if use_save else ()
     forbid = None
     if forbid_kind == "star":
@@ -212,7 +230,7 @@ def run_case(res, pi, stored, target, use_save, modifier, forbid_kind, layout, p
         exc = e
     after = listing(base)
     created = {x for x in after - before}
-    ran = {n for n in ("mo", "nn", "fl") if world.calls.get(n, 0) > 0} | ({"src"} if world.source_calls.get("src", 0) > 0 else set())
+    ran = {n for n in ("mo", "nn", "lp") if world.calls.get(n, 0) > 0} | ({"src"} if world.source_calls.get("src", 0) > 0 else set())
     if exp[0] == "error":
         kinds = exp[1]
         if kinds == {"dontcare"}:
@@ -235,17 +253,28 @@ def run_case(res, pi, stored, target, use_save, modifier, forbid_kind, layout, p
     if ran != exp_run:
         res.violation(f"ran:{'extra' if ran - exp_run else 'missing'}", f"plugins that ran {sorted(ran)} != reference planner {sorted(exp_run)} (stored {sorted(eff_stored)}, target {target})", case)
     if modifier in ("none", "selection", "keep_columns", "fuzzy_for", "allow_incomplete"):
-        if modifier in ("none", "fuzzy_for", "allow_incomplete") and not ctxrun.rows_equal(got, ref[target]):
-            res.violation("rows", "result differs from the whole-run reference", case)
-        # every running plugin saw each input row exactly once
-        for node in ("mo", "nn", "fl"):
+        if modifier in ("none", "fuzzy_for", "allow_incomplete"):
+            g2 = got.copy()
+            g2["rid"] %= TAG
+            if not ctxrun.rows_equal(g2, ref[target]):
+                res.violation("rows", "result differs from the whole-run reference", case)
+            want_tag = 1 if target in eff_stored else 2
+            if len(got) and set((got["rid"] // TAG).tolist()) != {want_tag}:
+                res.violation("origin:target", f"target {target} came from phase {sorted(set((got['rid'] // TAG).tolist()))}, expected {want_tag} (1 = stored copy, 2 = computed now)", case)
+        # every running plugin saw each input row exactly once, from the right origin (stored copy vs computed now)
+        for node in ("mo", "nn", "lp"):
             if node not in ran:
                 continue
-            seen = [r for (n, s, e, arrs) in world.log if n == node for rr in arrs.values() for r in rr]
-            dep = DEPS[node][0]
-            want = [int(x) for x in ref[dep]["rid"]]
-            if seen != want:
-                res.violation(f"rows-delivered:{node}", f"{node} saw input rows {seen}, expected {want}", case)
+            for dep in DEPS[node]:
+                kind = KIND_OF[dep]
+                seen = [r for (n, s, e, arrs) in world.log if n == node for r in arrs.get(kind, ())]
+                want = [int(x) for x in ref[dep]["rid"]]
+                if [r % TAG for r in seen] != want:
+                    res.violation(f"rows-delivered:{node}", f"{node} saw {dep} rows {seen}, expected {want} exactly once each", case)
+                    continue
+                want_tag = 1 if dep in eff_stored else 2
+                if seen and set(r // TAG for r in seen) != {want_tag}:
+                    res.violation(f"origin:{node}:{dep}", f"{node} received {dep} from phase {sorted(set(r // TAG for r in seen))}, expected {want_tag} (1 = stored copy, 2 = computed now)", case)
     # directories created
     exp_dirs = set()
     for t in exp_saved:
